@@ -26,7 +26,7 @@ func pairFamilies(tier string) []pairFamily {
 		{name: "list",
 			seeds: map[string][][]string{"none": nil, "one": {c("RPUSH", k, "a")}, "two": {c("RPUSH", k, "a", "b")}},
 			ops: [][]string{c("LPUSH", k, "x"), c("RPUSH", k, "y"), c("LPUSHX", k, "x"), c("RPUSHX", k, "y"), c("LPOP", k), c("RPOP", k), c("LPOP", k, "2"), c("LLEN", k), c("LRANGE", k, "0", "-1"),
-				c("LREM", k, "0", "a"), c("LTRIM", k, "1", "-1"), c("LSET", k, "0", "z"), c("LINDEX", k, "0"), c("LINSERT", k, "BEFORE", "a", "i"), c("LPOS", k, "a"), c("LMOVE", k, k, "LEFT", "RIGHT"), c("LMOVE", k, k1, "LEFT", "RIGHT"),
+				c("LREM", k, "0", "a"), c("LTRIM", k, "1", "-1"), c("LSET", k, "0", "z"), c("LINDEX", k, "0"), c("LINDEX", k, "1"), c("LINDEX", k, "-1"), c("LINSERT", k, "BEFORE", "a", "i"), c("LPOS", k, "a"), c("LMOVE", k, k, "LEFT", "RIGHT"), c("LMOVE", k, k1, "LEFT", "RIGHT"),
 				c("DEL", k), c("EXISTS", k), c("RENAME", k, k1), c("EXPIRE", k, "100")},
 			ro: map[string]bool{"LLEN": true, "LRANGE": true, "LINDEX": true, "LPOS": true, "EXISTS": true}},
 		{name: "hash",
@@ -71,9 +71,8 @@ func genPairScenarios(tier string) []*Scenario {
 			for i := 0; i < len(f.ops); i++ {
 				for j := i; j < len(f.ops); j++ {
 					a, b := f.ops[i], f.ops[j]
-					if f.ro[a[0]] && f.ro[b[0]] {
-						continue
-					}
+					// (pairs of two reading commands are kept: a reader may maintain hidden state - a cache, a
+					// cursor - under the shared lock, which the free-running -race pass sees)
 					id := "pair:" + f.name + ":" + sn + ":" + strings.Join(a, " ") + " | " + strings.Join(b, " ")
 					sc := &Scenario{ID: id, Prop: "C05", Seed: f.seeds[sn], Threads: [][][]string{{a}, {b}}, Atomic: true, Gen: true}
 					out = append(out, sc)
